@@ -19,7 +19,8 @@ MANIFEST = dict(
          "(real metrics-wrapped http.Client, real zcache) with the in-process hook server as the scheduler gate, and the recorded "
          "steps are validated by TLC against spec/TraceHook.tla, which drives the actions of HookTransport.tla with the logged values "
          "and evaluates the same clause operators as monitors. Model checking is the right level: the property quantifies over "
-         "interleavings at enrich / round-trip / adjust granularity and over a finite product of answer shapes.",
+         "interleavings at enrich / round-trip / adjust granularity and over a finite product of answer shapes."
+         ' A timed-out hook answers late but well-formed (the in-process transport honours the request context): a client with a stale timeout would accept it.',
     ref="DESIGN.md §8 C19",
     tech="TLA+ model + TLC exhaustive check + TLC behaviour enumeration replayed on real code + TLC trace validation")
 
